@@ -106,8 +106,8 @@ func monitor(c *vf.Ctx) {
 			if !g.Has(exportedShutdownFrame) {
 				continue
 			}
-			if strings.HasPrefix(g.State, "semacquire") && g.Has("sync.(*WaitGroup).Wait") {
-				shutParked = true
+			if g.State != "running" {
+				shutParked = true // blocked inside Shutdown/ShutdownAndWait, on whatever primitive (message only)
 			}
 		}
 		var leaked []*swk
@@ -164,7 +164,7 @@ func monitor(c *vf.Ctx) {
 			}
 			names = append(names, fmt.Sprintf("%s(order %d, kind %s)", w.name, w.order, w.kind))
 		}
-		msg := fmt.Sprintf("free-running: shutdown was requested and every goroutine of the process is parked for ever, but the context of accepted, started worker(s) %v was never cancelled (a Shutdown/ShutdownAndWait caller parked in sync.WaitGroup.Wait: %v)", names, shutParked)
+		msg := fmt.Sprintf("free-running: shutdown was requested and every goroutine of the process is parked for ever, but the context of accepted, started worker(s) %v was never cancelled (a goroutine blocked inside Shutdown/ShutdownAndWait: %v)", names, shutParked)
 		it.deadlock.CompareAndSwap(nil, &msg)
 		for _, w := range leaked {
 			w.release()
